@@ -107,6 +107,63 @@ func runConns(seed int64, rounds, n int) string {
 			return fmt.Sprintf("bad round=%d phase=mixed ticked=%d want=%d", r, got2, want)
 		}
 	}
+	// stores that overlap a running tick: the housekeeping goroutine walks a table of many long-lived connections over and
+	// over while new connections are accepted (each stored from its own goroutine); once everything is quiet, one more
+	// tick must reach every connection of the table exactly once - in particular those stored while a tick was under way
+	for r := 0; r < rounds; r++ {
+		tbl := connections.New()
+		old := make([]*fakeConn, 1500)
+		for i := range old {
+			old[i] = &fakeConn{addr: srvAddr(fmt.Sprintf("o%d-%d", r, i))}
+			tbl.Store(old[i])
+		}
+		stop := make(chan struct{})
+		tickerDone := make(chan struct{})
+		go func() {
+			defer close(tickerDone)
+			for {
+				select {
+				case <-stop:
+					return
+				default:
+					tbl.CheckExpirations(time.Now())
+				}
+			}
+		}()
+		fresh := make([]*fakeConn, 4*n)
+		var wg sync.WaitGroup
+		for i := range fresh {
+			fresh[i] = &fakeConn{addr: srvAddr(fmt.Sprintf("f%d-%d", r, i))}
+			wg.Add(1)
+			spin := rng.Intn(20000)
+			go func(c *fakeConn, spin int) {
+				defer wg.Done()
+				x := 0
+				for k := 0; k < spin; k++ {
+					x += k
+				}
+				_ = x
+				tbl.Store(c)
+			}(fresh[i], spin)
+		}
+		wg.Wait()
+		close(stop)
+		<-tickerDone
+		before := make([]int32, len(fresh))
+		for i, c := range fresh {
+			before[i] = c.ticks.Load()
+		}
+		tbl.CheckExpirations(time.Now())
+		missed := 0
+		for i, c := range fresh {
+			if c.ticks.Load()-before[i] != 1 {
+				missed++
+			}
+		}
+		if missed != 0 {
+			return fmt.Sprintf("bad round=%d phase=store-during-tick connections not reached by the next tick=%d of %d", r, missed, len(fresh))
+		}
+	}
 	return fmt.Sprintf("ok rounds=%d", rounds)
 }
 
